@@ -19,6 +19,9 @@ inductive FOp
   | fsyncDir                -- fsync of the temporary file's directory
   | rename                  -- rename(temp, final): the result becomes visible
   | lockGet | lockRelease   -- the 'pack-save' lock around a pack rewrite
+  | failed                  -- a primitive of the write reported an error (disk full, I/O error): what is in the temporary file is a partial attempt
+  | truncate                -- the temporary file is emptied and written again from the start (fallback to another encoding)
+  | raised                  -- the write gives up: the exception reaches the caller (nothing may follow)
   | other (what : String)   -- anything else that touches the store
 deriving Repr, DecidableEq
 
@@ -31,6 +34,8 @@ structure St where
   closed : Bool := false
   renamed : Bool := false   -- the final name resolves to this file
   bad : Bool := false       -- something outside the discipline happened
+  tainted : Bool := false   -- the temporary file holds (part of) an attempt that failed
+  gaveUp : Bool := false    -- the exception was passed on to the caller
 deriving Repr, DecidableEq
 
 def step (s : St) : FOp → St
@@ -45,9 +50,15 @@ def step (s : St) : FOp → St
   | .close => { s with oscache := s.oscache + s.pybuf, pybuf := 0, closed := true }
   | .fsyncDir => s
   | .rename =>
-      -- the discipline: only a closed, completely durable temporary file may become visible
-      if s.created ∧ s.closed ∧ s.pybuf = 0 ∧ s.durable = s.total ∧ s.oscache = s.total ∧ ¬ s.renamed then { s with renamed := true }
+      -- the discipline: only a closed, completely durable temporary file that holds one complete attempt may become visible
+      if s.created ∧ s.closed ∧ s.pybuf = 0 ∧ s.durable = s.total ∧ s.oscache = s.total ∧ ¬ s.renamed ∧ ¬ s.tainted ∧ ¬ s.gaveUp then { s with renamed := true }
       else { s with bad := true }
+  | .failed => if s.renamed ∨ s.gaveUp then { s with bad := true } else { s with tainted := true }
+  | .truncate =>
+      -- start again: nothing of the failed attempt stays in front of the next one
+      if s.renamed ∨ s.closed ∨ ¬ s.created ∨ s.gaveUp then { s with bad := true }
+      else { s with pybuf := 0, oscache := 0, durable := 0, total := 0, tainted := false }
+  | .raised => if s.renamed then { s with bad := true } else { s with gaveUp := true }
   | .lockGet => s
   | .lockRelease => s
   | .other _ => { s with bad := true }
@@ -58,6 +69,11 @@ def run (s : St) : List FOp → St
 
 /-- the whole sequence is safe: nothing outside the discipline, and it ends with the result visible -/
 def safeSeq (ops : List FOp) : Bool := !(run {} ops).bad && (run {} ops).renamed
+
+/-- a write during which a primitive failed is safe if nothing outside the discipline happens and it either gives the error to its caller
+    without having published anything, or publishes one complete attempt -/
+def safeFailSeq (ops : List FOp) : Bool :=
+  !(run {} ops).bad && ((run {} ops).gaveUp != (run {} ops).renamed)
 
 /-- number of bytes of the complete value -/
 def valueSize (ops : List FOp) : Nat := (run {} ops).total
